@@ -158,7 +158,7 @@ func (st *State) havocLog() {
 func (st *State) havocLogOpaque() {
 	oldLen := st.evlen
 	st.havocLog()
-	st.assume(fmt.Sprintf("(forall ((k!p Int)) (! (=> (and (<= %s k!p) (< k!p %s)) (>= (ev_kind (select %s k!p)) %d)) :pattern ((select %s k!p))))", oldLen, st.evlen, st.evlog, evKinds["Call"], st.evlog))
+	st.assume(fmt.Sprintf("(forall ((k!p Int)) (! (=> (and (<= %s k!p) (< k!p %s)) (= (ev_kind (select %s k!p)) %d)) :pattern ((select %s k!p))))", oldLen, st.evlen, st.evlog, evKinds["Other"], st.evlog))
 }
 
 func (st *State) havocAlloc() {
